@@ -36,11 +36,11 @@ func verifYield(site string) {
 	}
 }
 
-// verifLock / verifUnlock are inserted by the gate rewrite in front of every Lock/RLock and Unlock/RUnlock statement
-// (l = address of the mutex expression, kind = "W" | "R"). Without an installed lock hook verifLock degrades to
-// verifYield (the jitter drivers).
+// verifLock / verifUnlock are inserted by the gate rewrite: verifLock in front of every Lock/RLock statement, verifUnlock
+// right after every Unlock/RUnlock (l = address of the mutex expression, kind = "W" | "R"). Without installed hooks both
+// degrade to verifYield (the jitter drivers).
 var verifLockFn func(site string, l interface{}, kind string)
-var verifUnlockFn func(l interface{}, kind string)
+var verifUnlockFn func(site string, l interface{}, kind string)
 
 func verifLock(site string, l interface{}, kind string) {
 	if f := verifLockFn; f != nil {
@@ -50,8 +50,10 @@ func verifLock(site string, l interface{}, kind string) {
 	verifYield(site)
 }
 
-func verifUnlock(l interface{}, kind string) {
+func verifUnlock(site string, l interface{}, kind string) {
 	if f := verifUnlockFn; f != nil {
-		f(l, kind)
+		f(site, l, kind)
+		return
 	}
+	verifYield(site)
 }
